@@ -2257,6 +2257,78 @@ async fn unframed_scenario<B: Payload>(plan: &UnfPlan, obs: &ObsCell, stage: &St
     }
     keep.hold(s);
 
+    // (1b) an unframed write issued while a frame accepted by send_data() is unfinished is refused
+    // (an error or the adapter's "not ready" panic) - or at least lands behind the whole frame:
+    // what the peer reads is the frame followed by whatever poll_send reported as accepted
+    if plan.cfg.raw.stream_rwnd <= 1024 {
+        stage.set("unframed after unfinished frame");
+        let mut s = rig::open_send::<B>(&mut aconn).await.map_err(|e| format!("poll_open_send: {}", rig::stream_err_class(&e)))?;
+        let slack = rng.usize(200);
+        let payload = rng.bytes(plan.cfg.raw.stream_rwnd as usize * 2 + 10 + slack);
+        let headers = rng.bool();
+        let fp = FrameP { headers, payload: payload.clone(), stream_type: None, premature_now: false };
+        let extra = rng.bytes_1upto(40);
+        let reader = async {
+            let mut rr = raw.accept_uni().await.map_err(|e| format!("raw accept_uni: {}", e))?;
+            Ok::<_, String>(raw_read(&mut rr, &style).await)
+        };
+        let writer = async {
+            let frame: Frame<B> = if headers { Frame::Headers(Bytes::copy_from_slice(&payload)) } else { Frame::Data(B::make(&payload, &mut rng)) };
+            if let Err(e) = quic::SendStream::<B>::send_data(&mut s, frame) {
+                return Err(format!("rig: send_data on a fresh stream: {}", rig::stream_err_class(&e)));
+            }
+            let fw = rig::FlagWaker::new();
+            let mut accepted = 0usize;
+            let mut how = "frame-finished-first";
+            if rig::poll_once(&fw, |cx| quic::SendStream::<B>::poll_ready(&mut s, cx)).is_pending() {
+                how = "never-answered";
+                for _ in 0..4000u32 {
+                    let mut sl: &[u8] = &extra;
+                    match panics::catch(|| rig::poll_once(&fw, |cx| quic::SendStreamUnframed::<B>::poll_send(&mut s, cx, &mut sl))) {
+                        Err(_) => {
+                            how = "refused-by-panic";
+                            break;
+                        }
+                        Ok(Poll::Ready(Err(_))) => {
+                            how = "refused-by-error";
+                            break;
+                        }
+                        Ok(Poll::Ready(Ok(n))) => {
+                            accepted = n;
+                            how = "accepted";
+                            break;
+                        }
+                        Ok(Poll::Pending) => tokio::time::sleep(Duration::from_millis(1)).await,
+                    }
+                }
+            }
+            let ready = std::future::poll_fn(|cx| quic::SendStream::<B>::poll_ready(&mut s, cx)).await;
+            let fin = std::future::poll_fn(|cx| quic::SendStream::<B>::poll_finish(&mut s, cx)).await;
+            Ok((how, accepted, ready.is_ok() && fin.is_ok()))
+        };
+        let (wres, rres) = tokio::join!(writer, reader);
+        let (got, end) = rres?;
+        let (how, accepted, clean) = wres?;
+        let mut want = fp.wire();
+        want.extend_from_slice(&extra[..accepted]);
+        let mut o = obs.borrow_mut();
+        o.evaluations += 1;
+        o.count(&format!("unframed_write_while_frame_unfinished[{}]", how));
+        if !clean {
+            o.violation("write-fails-after-refused-unframed-write", format!("poll_ready / poll_finish failed on a healthy stream after an unframed write attempt ({})", how));
+        } else if got != want || !matches!(end, ReadEnd::Fin) {
+            o.violation(
+                "unframed-write-interleaved-with-unfinished-frame",
+                format!(
+                    "send_data({} B frame) unfinished, poll_send({} B): {} ({} B accepted); the peer read {} B ({:?}), expected the frame ({} B on the wire) followed by the accepted bytes; first difference at offset {}",
+                    payload.len(), extra.len(), how, accepted, got.len(), end, fp.wire().len(), first_diff(&got, &want)
+                ),
+            );
+        }
+        drop(o);
+        keep.hold(s);
+    }
+
     // (2) the peer's STOP_SENDING surfaces from poll_send as StreamTerminated with the peer's code
     let mut cs = vec![plan.code];
     cs.push(*rng.pick(&codes()));
